@@ -1364,6 +1364,100 @@ def _replace_term(t, old, new):
                  for x in t)
 
 
+
+def r9_hilbert_levels(program, rep):
+    """The Hilbert placer walks a curve of 2**levels x 2**levels points and
+    keeps those that are chips: every chip is on the walk only if 2**levels
+    reaches the longer side, i.e. levels = ceil(log2(max(width, height))).
+    A level count rounded to nearest or down leaves the outer rows and
+    columns of most machine sizes unvisited - vertices that fit are then
+    refused (InsufficientResourceError)."""
+    fn = program.get(PL + ".hilbert:hilbert_chip_order")
+    inst = qual(fn)
+    T = Terms(fn)
+    cs = calls_in(fn, "hilbert")
+    if len(cs) != 1 or len(cs[0].args) < 1:
+        raise AnalysisError("hilbert_chip_order: one hilbert(levels) call "
+                            "expected")
+    n = T.cfg.node_containing(cs[0])
+    lv = T.term(cs[0].args[0], n)
+    from ..terms import alternatives as _alts
+
+    def strip(t):
+        t = plain(t)
+        while t[0] in ("call", "callv") and t[1] == ("global", "int") \
+                and len(t[2]) == 1:
+            t = plain(t[2][0])
+        return t
+
+    def fname(t):
+        if not t or not isinstance(t[0], str):
+            return None
+        if t[0] in ("call", "callv") and len(t) > 1 and t[1] and \
+                isinstance(t[1], tuple):
+            f = t[1]
+            if f[0] == "global":
+                return f[1]
+            if f[0] == "attr":
+                return f[2]
+        return None
+    judged = 0
+    for alt in _alts(lv):
+        a = strip(alt)
+        if a[0] == "const":
+            continue
+        judged += 1
+        if fname(a) == "ceil" and len(a[2]) == 1:
+            inner = plain(a[2][0])
+            if fname(inner) in ("log", "log2"):
+                base_ok = fname(inner) == "log2" or (
+                    len(inner[2]) == 2 and inner[2][1][0] == "const" and
+                    inner[2][1][1] in (2, 2.0))
+                arg = plain(inner[2][0]) if inner[2] else ("?",)
+                if not base_ok:
+                    raise AnalysisError("hilbert_chip_order: logarithm to a "
+                                        "base other than 2; not analysed")
+                names = set()
+                for st_ in [arg] + [x for x in _subterms(arg)]:
+                    if len(st_) == 3 and st_[0] == "attr" and \
+                            st_[2] in ("width", "height"):
+                        names.add(st_[2])
+                if fname(arg) == "max" and names == {"width", "height"}:
+                    rep.ok("C02-R9", inst, "levels = ceil(log2(max(width, "
+                           "height))): the curve covers the longer side",
+                           cs[0])
+                    continue
+                raise AnalysisError("hilbert_chip_order: the size the level "
+                                    "count is taken from is not max(width, "
+                                    "height); whether the curve covers the "
+                                    "machine is not decided in that form")
+            raise AnalysisError("hilbert_chip_order: ceil of something "
+                                "other than a logarithm; not analysed")
+        if fname(a) in ("round", "floor", "log", "log2", "trunc"):
+            deep = [fname(x) for x in [a] + list(_subterms(a))]
+            if ("log" in deep or "log2" in deep) and "ceil" not in deep:
+                rep.bad("C02-R9", inst, "levels not rounded up",
+                        "the number of Hilbert levels is the logarithm of "
+                        "the machine's size rounded with %s(), not rounded "
+                        "up: 2**levels can be smaller than the longer side "
+                        "(e.g. 5 chips -> 2 levels -> a 4 x 4 curve) and the "
+                        "chips beyond it are never offered to the placer" %
+                        fname(a), cs[0], positive=True)
+                continue
+        raise AnalysisError("hilbert_chip_order: the level count is "
+                            "computed in a form these rules do not read")
+    if not judged:
+        raise AnalysisError("hilbert_chip_order: no level count found")
+
+
+def _subterms(t):
+    if isinstance(t, tuple):
+        for x in t:
+            if isinstance(x, tuple):
+                yield x
+                for y in _subterms(x):
+                    yield y
+
 def check(program, rep):
     rep.guard("C02-R1", r1_commits, program, rep)
     rep.guard("C02-R1", r1_chip_order, program, rep)
@@ -1376,6 +1470,7 @@ def check(program, rep):
     rep.guard("C02-R6", r6_raises, program, rep)
     rep.guard("C02-R6", r6_empty_population, program, rep)
     rep.guard("C02-R7", r7_link, program, rep)
+    rep.guard("C02-R9", r9_hilbert_levels, program, rep)
     # the constraint-rewriting helpers work on copies: the caller's lists
     # (re-used for the next call, or given to the router) stay as they were
     from . import C17
